@@ -319,6 +319,31 @@ def s_unpack(fmt, data):
     return tuple(res)
 
 
+def s_unpack_from(fmt, buffer, offset=0):
+    if not is_sym(buffer) and not is_sym(offset):
+        return struct.unpack_from(fmt, buffer, offset)
+    if is_sym(offset):
+        raise Unsupported("unpack_from with symbolic offset")
+    f = fmt.concrete() if isinstance(fmt, SymSeq) else fmt
+    if isinstance(f, bytes):
+        f = f.decode()
+    body = f.lstrip("<>!=@")
+    import re as _re
+
+    m = _re.fullmatch(r"(\d+)s", body)
+    size = int(m.group(1)) if m else struct.calcsize(f)
+    if offset < 0:
+        raise Unsupported("unpack_from with negative offset")
+    avail = buffer.unit_len() - offset
+    enough = avail >= size
+    if not (enough if isinstance(enough, bool) else bool(enough)):
+        raise struct.error("unpack_from requires a buffer of at least %d bytes" % (size + offset))
+    chunk = buffer[offset:offset + size]
+    if m:
+        return (chunk,)
+    return s_unpack(fmt, chunk)
+
+
 def int_from_units(units, byteorder, signed=False):
     if byteorder == "little":
         units = units[::-1]
